@@ -560,6 +560,50 @@ Proof.
   rewrite <- C1, <- C2. apply (wf_gpio_channel b W); congruence.
 Qed.
 
+(* ---- countdown-timer maintenance: the extra cells belong to a channel whose timer an earlier message armed,
+   they are that channel's remaining time, relay pin(s) and saved relay state only, and they are inside the tables ---- *)
+Lemma good_timer_cells b y cl : wf_board b -> In cl (timer_cells b y) -> good b y cl /\ timer_table (fst cl) = true.
+Proof.
+  intros W Hin. unfold timer_cells in Hin. apply in_app_or in Hin. destruct Hin as [Hin|Hin].
+  - destruct ((0 <=? y) && (y <? STATE_TIME2_COUNT)) eqn:E; [|contradiction].
+    apply andb_prop in E. destruct E as [E1 E2]. apply Z.leb_le in E1. apply Z.ltb_lt in E2.
+    destruct Hin as [<-|[]]. facts. split; [|reflexivity]. split; [unfold cell_ok; cbn [fst snd]; lia|reflexivity].
+  - split; [apply good_relays_of; assumption|].
+    apply in_flat_map in Hin. destruct Hin as (a & _ & Hin). unfold relay_out_cells in Hin.
+    destruct Hin as [<-|Hin]; [reflexivity|]. apply in_map_iff in Hin. destruct Hin as (a' & <- & _). reflexivity.
+Qed.
+
+Theorem C03_timer_maintenance_thm : forall b armed id payload scratch cl,
+  wf_board b -> In cl (timer_mw b armed id payload scratch) ->
+  evaluates_timers b id payload = true /\
+  exists y, In y armed /\ owns b y cl /\ timer_table (fst cl) = true /\ 0 <= snd cl < tsize (fst cl).
+Proof.
+  intros b armed id p scratch cl W Hin. unfold timer_mw in Hin.
+  destruct (reaches_handler (b_devcfg b) id p scratch && evaluates_timers b id p) eqn:E; [|contradiction].
+  apply andb_prop in E. destruct E as [_ E]. split; [exact E|].
+  apply in_flat_map in Hin. destruct Hin as (y & Hy & Hin).
+  destruct (good_timer_cells b y cl W Hin) as [[Hok Ho] Ht]. exists y.
+  split; [assumption|]. split; [assumption|]. split; [assumption|exact Hok].
+Qed.
+
+(* a slot is armed only for the channel a dispatched message names *)
+Theorem C03_armed_named_thm : forall b armed id payload scratch y,
+  In y (armed_after b armed id payload scratch) -> In y armed \/ named_channel id payload = Some y.
+Proof.
+  intros b armed id p scratch y. unfold armed_after.
+  destruct (reaches_handler (b_devcfg b) id p scratch && evaluates_timers b id p); [|auto].
+  destruct (named_channel id p) as [c|]; [|auto]. intros [<-|H]; auto.
+Qed.
+
+Theorem C03_in_bounds_t_thm : forall b armed id payload scratch t i,
+  wf_board b -> bytes_ok payload ->
+  In (t, i) (may_write_t true b armed id payload scratch) -> 0 <= i < tsize t.
+Proof.
+  intros b armed id p scratch t i W Hp Hin. unfold may_write_t in Hin. apply in_app_or in Hin. destruct Hin as [Hin|Hin].
+  - eapply C03_in_bounds_thm; eauto.
+  - destruct (C03_timer_maintenance_thm b armed id p scratch (t, i) W Hin) as (_ & y & _ & _ & _ & H). exact H.
+Qed.
+
 (* ---- decidable form of wf_board (used for the examples and witnesses) ---- *)
 Definition relay_okb (r : relay) : bool := (0 <=? r_gpio r) && (r_gpio r <? GPIO_PINS - 1) && (0 <=? r_channel r) && (r_channel r <? 255).
 Definition input_okb (i : input) : bool := (0 <=? i_channel i) && (i_channel i <=? 255) && (0 <=? i_relay_gpio i) && (i_relay_gpio i <=? 255).
